@@ -122,6 +122,11 @@ void *vf_exact_alloc(size_t n);
 size_t vf_exact_check(const void *p);
 void vf_exact_free(void *p);
 
+/* named, partitioned sweeps (thorough tier): vf_sweep() is called once per
+ * (name, part); name "" is the default cheap sweep that always runs */
+const char *vf_sweep_name(void);
+void vf_sweep_part(uint64_t *part, uint64_t *parts);
+
 /* ----------------------------------------------------------------- drivers */
 extern const char *vf_prop_id;
 void vf_run(vf_rd *r, vf_report *rep);
